@@ -284,7 +284,9 @@ impl RecordDefinition<NativeDatumDetails> {
     /// This is used to determine the size of the byte buffer required to store any variant of this
     /// record definition.
     pub fn max_size(&self) -> usize {
-        self.datum_definitions()
+        self.variants()
+            .flat_map(|variant| variant.data())
+            .map(|d| &self[d])
             .map(|d| d.details().offset() + d.details().size())
             .max()
             .unwrap_or(0)
